@@ -101,6 +101,10 @@ pub fn check(thorough: bool, _seed: u64) -> Check {
             us.push(Unit { alpha: order_alphabet(&e), ends: e, depth: 2 });
         }
     }
+    for n in [48usize, 64, 100] {
+        let e = iota(n);
+        us.push(Unit { alpha: reduced_alphabet(&e), ends: e, depth: 3 });
+    }
     for (e, d) in [(vec![1.0, 2.0], 11usize), (vec![1.0, 2.0, 3.0], 9), (vec![1.0, 2.0, 2.0, 3.0], 8), (iota(4), 7), (iota(5), 7), (iota(6), 6), (iota(8), 5)] {
         us.push(Unit { alpha: reduced_alphabet(&e), ends: e, depth: if thorough { d } else { d - 1 } });
     }
@@ -163,7 +167,7 @@ pub fn check(thorough: bool, _seed: u64) -> Check {
                 ("empty_sequence", true),
             ],
             split: 2,
-            bounds: json!({"long_sequences": "reduced alphabet (every end, one point per cell, one below, one above) on [1,2], [1,2,3], [1,2,2,3], 1..4, 1..5, 1..6, 1..8 with depth 10, 8, 7, 6, 6, 5, 4 (+1 thorough); 1..n for the threshold sizes up to 129 (257) with every pair of arguments",
+            bounds: json!({"three_arguments_on_big_functions": "1..n for n = 48, 64, 100: every sequence of <= 3 arguments over the reduced alphabet", "long_sequences": "reduced alphabet (every end, one point per cell, one below, one above) on [1,2], [1,2,3], [1,2,2,3], 1..4, 1..5, 1..6, 1..8 with depth 10, 8, 7, 6, 6, 5, 4 (+1 thorough); 1..n for the threshold sizes up to 129 (257) with every pair of arguments",
                 "shapes": "all non-decreasing end lists of length 1..5 over {1..5}, of length 1..3 over the nasty value set, of length 6 over {1..6} (depth 2; 3 thorough), and the lists 1..n for n=6..9 (12 thorough; depth 3 up to n=8, then 2)",
                 "sequences": if thorough {"every sequence of length 0..5 (0..4 for 5 pieces) over A(ends)"} else {"every sequence of length 0..4 (0..3 for 5 pieces) over A(ends)"},
                 "piece_types": "Probe, Poly3"}),
